@@ -1,6 +1,7 @@
 package oracle
 
 import (
+	"os"
 	"bytes"
 	"fmt"
 	"sort"
@@ -152,6 +153,17 @@ func analyseSlashPackets(w *world.World, km *KeyModel, pre *slashPre, r *world.S
 		case world.KUnjail, world.KRemoveConsumer, world.KProviderDS, world.KDoubleVote, world.KMisbehaviour, world.KUndelegate, world.KRedelegate:
 			// these can jail, unjail or stop something in the middle of the block
 			strict = false
+		case world.KAssignKey, world.KOptIn, world.KMulti:
+			// a key assigned in the middle of the block changes which validator a reported key resolves to
+			acts := []world.Action{*tx.Action}
+			if tx.Action.Kind == world.KMulti {
+				acts = tx.Action.Sub
+			}
+			for _, sa := range acts {
+				if tx.OK() && sa.Key != "" && (sa.Kind == world.KAssignKey || sa.Kind == world.KOptIn) {
+					strict = false
+				}
+			}
 		}
 	}
 	for _, g := range r.Gov {
@@ -243,6 +255,11 @@ func analyseSlashPackets(w *world.World, km *KeyModel, pre *slashPre, r *world.S
 				jailedNow[ev.val] = true
 			}
 		}
+		// an acknowledgement is only ever owed for a report the provider answered with "handled" (in relaxed blocks
+		// the reference decision may differ from the provider's, e.g. a bounced report is never acknowledged)
+		if ev.ack != "handled" {
+			ev.owedAck = false
+		}
 		out = append(out, ev)
 	}
 	return out, nil, strict
@@ -280,6 +297,9 @@ func (m *C08) After(w *world.World, a *world.Action, r *world.StepResult) *Viola
 	T := r.Block.Time
 
 	expectJailed := map[string]slashEvent{}
+	if len(events) > 0 && os.Getenv("VERIF_DEBUG") != "" {
+		fmt.Fprintf(os.Stderr, "C08 block %d (strict %v): %s\n", r.Block.Height, strict, fmtEvents(events))
+	}
 	for _, ev := range events {
 		m.n++
 		w.Label("report:" + ev.reason)
